@@ -12,6 +12,7 @@ import (
 
 	"verifharness/lab/child"
 	"verifharness/lab/ev"
+	"verifharness/lab/racelog"
 )
 
 type Viol struct {
@@ -216,4 +217,23 @@ func keepLog(r *ev.Run, logPath, tag string) {
 	dir := ev.Root() + "/replays"
 	_ = os.MkdirAll(dir, 0o755)
 	_ = os.WriteFile(fmt.Sprintf("%s/%s-%s-s%d-%s.log", dir, r.ID, r.Tier, r.Seed, tag), b, 0o644)
+}
+
+// ReportRaces turns race-detector reports (this worker was built with -race) whose
+// stacks run through the given repository packages into violations.
+func ReportRaces(r *ev.Run, pkgs ...string) {
+	if !racelog.Enabled() {
+		r.Extra("race_detector", "off in this tier/build")
+		return
+	}
+	reps := racelog.Collect(pkgs...)
+	n := 0
+	for _, rep := range reps {
+		if rep.InRepo {
+			n++
+			r.Violation("data-race:"+rep.Key, "", "race detector report in repository code", map[string]any{"report": rep.Excerpt, "count": rep.Count})
+		}
+	}
+	r.Extra("race_detector", "enabled")
+	r.Count("race_reports_in_repository_code", int64(n))
 }
